@@ -136,7 +136,13 @@ def key_value(k):
 def party_cert(cn, issuer_cn, serial, d, ku=("digitalSignature", "keyEncipherment")):
     """issuer_cn "toolkit:<cn>" gives the six-attribute issuer name the toolkit's own examples use (C, ST, L, O, OU, CN)"""
     pub = M.pub_of(d)
-    issuer = RX.name(issuer_cn[8:]) if issuer_cn.startswith("toolkit:") else RX.name(issuer_cn, extra=())
+    if issuer_cn.startswith("maxdn:"):
+        # an issuer name with every attribute at its X.520 upper bound (about 520 bytes of DER): legal, and what makes a RecipientInfo large
+        tag = issuer_cn[6:]
+        fill = lambda n: (tag + " " + "x" * n)[:n]
+        issuer = RX.name(fill(64), extra=(("C", "CN"), ("ST", fill(128)), ("L", fill(128)), ("O", fill(64)), ("OU", fill(64))))
+    else:
+        issuer = RX.name(issuer_cn[8:]) if issuer_cn.startswith("toolkit:") else RX.name(issuer_cn, extra=())
     t = RX.tbs(serial, issuer, pki.T0 - pki.DAY, pki.T0 + 365 * pki.DAY, RX.name(cn, extra=()), pub, [RX.ext_key_usage(list(ku))])
     return RX.cert(t, CA_D, CA_PUB)
 
